@@ -114,7 +114,7 @@ def plan(tier, seed):
             for space in ("1rtt", "handshake"):
                 fl.append({"gen": "flood_crypto", "victim": victim, "space": space, "variant": "gap", "n": 3000 * scale, "seed": s})
             fl.append({"gen": "flood_crypto", "victim": victim, "space": "1rtt", "variant": "contig", "n": min(700 * scale, 3000), "seed": s})
-            for variant in ("same", "same_burst", "vary_probe", "vary_promote", "few_burst", "lost_responses"):
+            for variant in ("same", "same_burst", "vary_probe", "vary_promote", "vary_validated", "few_burst", "lost_responses"):
                 # R looks a source address up linearly: keep the many-address runs below 2*10^4 datagrams
                 nn = min(6000 * scale, 20000) if variant.startswith("vary") else 6000 * scale
                 fl.append({"gen": "flood_challenge", "victim": victim, "variant": variant, "n": nn, "seed": s})
@@ -754,7 +754,10 @@ def gen_limits(batch, res):
 def consts():
     import aioquic.quic.connection as qc
 
-    return {k: getattr(qc, k) for k in ("MAX_PENDING_CRYPTO", "MAX_REMOTE_CHALLENGES", "MAX_PENDING_RETIRES")}
+    c = {k: getattr(qc, k) for k in ("MAX_PENDING_CRYPTO", "MAX_REMOTE_CHALLENGES", "MAX_PENDING_RETIRES")}
+    # documented in connection.py ("bound the number of paths a peer can make us remember")
+    c["MAX_NETWORK_PATHS"] = getattr(qc, "MAX_NETWORK_PATHS", None)
+    return c
 
 
 NAMED_FIRST = ["_streams", "_streams_queue", "_crypto_streams", "_crypto_buffers", "_network_paths", "_retire_connection_ids",
@@ -855,6 +858,9 @@ class Bounds:
             if n > self.c["MAX_REMOTE_CHALLENGES"]:
                 res.violation("O2:bound:remote-challenges-per-path-exceed-MAX_REMOTE_CHALLENGES", "path %r queues %d challenges, MAX_REMOTE_CHALLENGES %d" % (p.addr, n, self.c["MAX_REMOTE_CHALLENGES"]), self.case, self.snapshot())
         self._mx("network_paths", len(R._network_paths))
+        if self.c.get("MAX_NETWORK_PATHS") is not None and len(R._network_paths) > self.c["MAX_NETWORK_PATHS"]:
+            res.violation("O2:bound:remembered-paths-exceed-MAX_NETWORK_PATHS", "%d network paths remembered (%d of them validated), MAX_NETWORK_PATHS %d" % (
+                len(R._network_paths), sum(1 for p in R._network_paths if p.is_validated), self.c["MAX_NETWORK_PATHS"]), self.case, self.snapshot())
         self._mx("challenges_all_paths", sum(len(p.remote_challenges) for p in R._network_paths))
         nret = len(R._retire_connection_ids)
         self._mx("pending_retirements", nret)
@@ -1079,6 +1085,32 @@ def gen_flood_challenge(batch, res):
                 payload = F.f_ping() + payload
         elif variant == "few_burst":
             addr = ("10.9.9.%d" % (i % 8), 4000 + i % 8)
+        elif variant == "vary_validated":
+            # a peer that really owns every address it sends from: a non-probing packet from a new address, then the
+            # echo of whatever PATH_CHALLENGE the victim sent there — every one of these paths ends up validated
+            addr = ("10.%d.%d.%d" % ((i >> 16) & 255, (i >> 8) & 255, i & 255), 1024 + (i % 60000))
+            try:
+                views = pup.deliver(pup.packet("1rtt", ack_prefix(pup) + F.f_ping()), addr=addr)
+                echoes = [f["data"] for v in views for f in v.frames if f["name"] == "PATH_CHALLENGE"]
+                closed = r_closed(pup, views)
+                if echoes and not closed:
+                    res.count("o2_path_challenges_echoed", len(echoes))
+                    views = pup.deliver(pup.packet("1rtt", b"".join(F.f_path_response(e) for e in echoes) + F.f_ping()), addr=addr)
+                    closed = r_closed(pup, views)
+            except ApiRaised as exc:
+                res.count("obs_api_raised_" + type(exc.exc).__name__)
+                break
+            frames += 1
+            res.maxc("o2_validated_paths_remembered_max", sum(1 for q in R._network_paths if q.is_validated))
+            if frames == 100 and not base_done:
+                w.baseline()
+                base_done = True
+            if frames % 25 == 0 or closed:
+                b.measure(closed)
+                trim(pup)
+            if closed:
+                break
+            continue
         try:
             if variant in ("same_burst", "few_burst") and i % 200 != 199:
                 pup.now += 0.0001
